@@ -21,6 +21,7 @@ def params_in(b, local):
 
 
 def run(ctx):
+    u7_receive_buffers(ctx)
     prog = ctx.prog
     bodies = [b for b in prog.prod_bodies() if "::_" not in b.defp]
     mods = {}
@@ -326,3 +327,89 @@ def _slice_has_upvar(b, locs, name):
                 if pp and pp[0] == 1 and b.upvar_name(pp) == name:
                     return True
     return False
+
+
+MAX_DATAGRAM = 65507     # largest UDP payload over IPv4 (65535 - 8 - 20)
+RECV_SLICE = ("recv_from", "recv", "peek_from", "peek", "try_recv_from", "try_recv", "try_peek_from")
+RECV_BUFMUT = ("recv_buf_from", "recv_buf", "try_recv_buf_from", "try_recv_buf")
+SHRINKERS = ("split", "split_to", "split_off", "freeze", "advance", "truncate_front")
+
+
+def _const_of_arg(b, op):
+    from ..mir import op_int
+    k = op_int(op)
+    if k is not None:
+        return k
+    p = op_place(op)
+    if p is None:
+        return None
+    for d in b.defs().get(p[0], []):
+        if d[0] == "assign" and d[3]["rv"]["k"] in ("use", "cast"):
+            return _const_of_arg(b, d[3]["rv"]["op"])
+    return None
+
+
+def u7_receive_buffers(ctx):
+    """U7: a datagram is delivered whole or not at all. The OS cuts a datagram to the space offered to the receive call, silently: every
+    receive on a UDP socket must offer room for the largest datagram, on every iteration of its loop."""
+    prog = ctx.prog
+    n = 0
+    for b in prog.prod_bodies():
+        if "::_" in b.defp:
+            continue
+        for (blk, c, t) in b.calls():
+            if "UdpSocket" not in (c.self_s or c.target) or c.method not in RECV_SLICE + RECV_BUFMUT or len(t["args"]) < 2:
+                continue
+            p = op_place(t["args"][1])
+            if p is None:
+                continue
+            n += 1
+            locs, calls, _ = b.slice_back([p[0]], stop_call=lambda cc: cc.method not in ("index_mut", "deref_mut", "as_mut", "as_mut_slice", "borrow_mut"))
+            locs |= {p[0]}
+            where = loc(t["sp"])
+            if c.method in RECV_SLICE:
+                sizes = []
+                for l in locs:
+                    m = re.match(r"^\[u8; (\d+)\]$", b.local_ty(l).strip())
+                    if m:
+                        sizes.append(int(m.group(1)))
+                sub = [cc for (_, cc, tt) in calls if cc.method == "index_mut" and "RangeFull" not in str(cc.f)]
+                if not sizes:
+                    # a heap buffer: vec![0; K]
+                    for (_, cc, tt) in b.calls():
+                        if cc.target.endswith("from_elem") and tt["dest"][0] in b.slice_back([p[0]])[0]:
+                            k = _const_of_arg(b, tt["args"][1]) if len(tt["args"]) > 1 else None
+                            if k is not None:
+                                sizes.append(k)
+                if not sizes or sub:
+                    ctx.ob("U7", b.defp, f"receive-buffer-holds-any-datagram:{c.method}", where, False,
+                           "the size of the buffer offered to the receive call cannot be established (not a fixed-size array / vec![0; K], or a sub-slice of it)")
+                    continue
+                ok = min(sizes) >= MAX_DATAGRAM
+                ctx.ob("U7", b.defp, f"receive-buffer-holds-any-datagram:{c.method}", where, ok,
+                       f"receive buffer of {min(sizes)} bytes" + ("" if ok else f": a datagram of up to {MAX_DATAGRAM} bytes is cut to {min(sizes)} by the OS without an error"))
+                continue
+            # BufMut receives: only the spare capacity is offered, and it is never grown by the call
+            bufs = [l for l in locs if re.search(r"\b(BytesMut|Vec<u8>)$", b.local_ty(l).strip()) and not b.local_ty(l).strip().startswith("&")]
+            lp_ = b.innermost_loop(blk)
+            loop_ = lp_[1] if lp_ else None
+            inloop = (lambda x: x in loop_) if loop_ else (lambda x: True)
+            verdict, why = False, "the spare capacity offered to the receive call is not re-established in the loop"
+            for bl in bufs:
+                users = [(bb, cc, tt) for (bb, cc, tt) in b.calls() if tt["args"] and op_place(tt["args"][0]) and
+                         bl in (b.slice_back([op_place(tt["args"][0])[0]], stop_call=lambda cc: True)[0] | {op_place(tt["args"][0])[0]})]
+                creators = [(bb, cc, tt) for (bb, cc, tt) in b.calls() if tt["dest"][0] == bl and cc.method in ("with_capacity", "zeroed")]
+                cap = max([_const_of_arg(b, tt["args"][0]) or 0 for (_, _, tt) in creators] or [0])
+                fresh = any(inloop(bb) and b.dominates(bb, blk) and (_const_of_arg(b, tt["args"][0]) or 0) >= MAX_DATAGRAM for (bb, _, tt) in creators) and bool(loop_)
+                reserved = any(cc.method == "reserve" and inloop(bb) and b.dominates(bb, blk) and len(tt["args"]) > 1 and (_const_of_arg(b, tt["args"][1]) or 0) >= MAX_DATAGRAM for (bb, cc, tt) in users)
+                shrinks = sorted({cc.method for (bb, cc, tt) in users if cc.method in SHRINKERS and inloop(bb)})
+                cleared = any(cc.method == "clear" and inloop(bb) and b.dominates(bb, blk) for (bb, cc, tt) in users)
+                if fresh or reserved or not loop_ and cap >= MAX_DATAGRAM:
+                    verdict, why = True, "a full-size buffer is created / reserved before every receive"
+                elif cap >= MAX_DATAGRAM and cleared and not shrinks:
+                    verdict, why = True, "the buffer is cleared before every receive and never split: its capacity stays"
+                else:
+                    why = (f"the buffer is created once with capacity {cap} and then {'/'.join(shrinks) or 'filled'} in the loop without a reserve: what is split off takes its part of the "
+                           "capacity along, so the room offered to later receives shrinks until a datagram no longer fits and is cut short by the OS (recv_buf_from never grows the buffer)")
+            ctx.ob("U7", b.defp, f"receive-buffer-holds-any-datagram:{c.method}", where, verdict, why)
+    ctx.floor("U7", "receive calls on UDP sockets", 2, n)
